@@ -69,6 +69,14 @@ fn unsecured_status() -> Vec<u8> {
     wb.as_slice().to_vec()
 }
 
+/// the exchange id a crafted message says it was sent on (bytes 4..6 of its payload; older payloads: byte 0)
+fn sent_on(p: &[u8]) -> u32 {
+    if p.len() >= 6 { u16::from_le_bytes([p[4], p[5]]) as u32 } else { p.first().copied().unwrap_or(0) as u32 }
+}
+fn unmap(e: u16) -> u32 {
+    if (100..110).contains(&e) { (e - 100) as u32 } else { e as u32 }
+}
+
 fn one_run(ops: &[Value], tr: &mut Trace) -> (usize, String) {
     sim::clock_reset();
     let net = sim::new_net();
@@ -108,11 +116,12 @@ fn one_run(ops: &[Value], tr: &mut Trace) -> (usize, String) {
                     }).unwrap_or((0, 0))
                 });
                 let r: Result<(), Error> = async {
-                    let (first, ts) = {
+                    let (first, ts, minit, tag) = {
                         let rx = ex.recv().await?;
-                        (rx.payload().first().copied().unwrap_or(0), rx.payload().get(2).copied().unwrap_or(0))
+                        let p = rx.payload();
+                        (p.first().copied().unwrap_or(0), p.get(2).copied().unwrap_or(0), p.get(3).copied().unwrap_or(1) != 0, sent_on(p))
                     };
-                    events.borrow_mut().push(json!({"ev": "AppRx", "x": x, "s": own_s, "ex": own_e, "ts": ts, "tag": if first == 200 { 900 } else { first as u32 }, "t": sim::now_ms(), "seq": sim::next_seq()}));
+                    events.borrow_mut().push(json!({"ev": "AppRx", "x": x, "role": "rsp", "minit": minit, "s": own_s, "ex": own_e, "ts": ts, "tag": if first == 200 { 900 } else { tag }, "t": sim::now_ms(), "seq": sim::next_seq()}));
                     match policy(first) {
                         "reply" => {
                             ex.send(MessageMeta::new(PROTO, 0x80, false), &[first]).await?;
@@ -128,9 +137,10 @@ fn one_run(ops: &[Value], tr: &mut Trace) -> (usize, String) {
                             loop {
                                 match select(ex.recv(), &mut hold).await {
                                     Either::First(Ok(rx)) => {
-                                        let tag = rx.payload().first().copied().unwrap_or(0);
+                                        let tag = sent_on(rx.payload());
                                         let ts = rx.payload().get(2).copied().unwrap_or(0);
-                                        events.borrow_mut().push(json!({"ev": "AppRx", "x": x, "s": own_s, "ex": own_e, "ts": ts, "tag": tag as u32, "t": sim::now_ms(), "seq": sim::next_seq()}));
+                                        let minit = rx.payload().get(3).copied().unwrap_or(1) != 0;
+                                        events.borrow_mut().push(json!({"ev": "AppRx", "x": x, "role": "rsp", "minit": minit, "s": own_s, "ex": own_e, "ts": ts, "tag": tag, "t": sim::now_ms(), "seq": sim::next_seq()}));
                                     }
                                     _ => break,
                                 }
@@ -146,11 +156,47 @@ fn one_run(ops: &[Value], tr: &mut Trace) -> (usize, String) {
             core::future::pending::<()>().await
         }
     };
+    // the device's own application: on request it initiates an exchange on session s, sends one message that asks for
+    // no acknowledgement and listens for three seconds
+    let dev_cmd: RefCell<std::collections::VecDeque<u8>> = RefCell::new(Default::default());
+    let dev_waker: RefCell<Option<core::task::Waker>> = RefCell::new(None);
+    let dev_exch: core::cell::Cell<u16> = core::cell::Cell::new(0);
+    let devapp = async {
+        loop {
+            let ss = core::future::poll_fn(|cx| match dev_cmd.borrow_mut().pop_front() {
+                Some(s) => core::task::Poll::Ready(s),
+                None => {
+                    *dev_waker.borrow_mut() = Some(cx.waker().clone());
+                    core::task::Poll::Pending
+                }
+            })
+            .await;
+            let sid = b.with_state(|st| st.verif_snapshot().sessions.sessions.iter().find(|x| x.local_sess_id == 10 + ss as u16).map(|x| x.id));
+            let Some(sid) = sid else { continue };
+            let Ok(mut ex) = Exchange::initiate_for_session(&b, &crypto, sid) else { continue };
+            let raw = ex.id().verif_raw();
+            let eid = b.with_state(|st| st.verif_snapshot().sessions.sessions.iter().find(|x| x.id == (raw & 0x0fff_ffff)).and_then(|x| x.exchanges.iter().find(|e| e.index == (raw >> 28) as usize).map(|e| e.exch_id)).unwrap_or(0));
+            dev_exch.set(eid);
+            events.borrow_mut().push(json!({"ev": "DevInit", "s": ss, "e": unmap(eid), "t": sim::now_ms(), "seq": sim::next_seq()}));
+            let _ = ex.send(MessageMeta::new(PROTO, 0x70, false), &[77]).await;
+            let mut hold = pin!(embassy_time::Timer::after_secs(3));
+            loop {
+                match select(ex.recv(), &mut hold).await {
+                    Either::First(Ok(rx)) => {
+                        let p = rx.payload();
+                        events.borrow_mut().push(json!({"ev": "AppRx", "x": 9, "role": "ini", "minit": p.get(3).copied().unwrap_or(1) != 0, "s": ss, "ex": unmap(eid), "ts": p.get(2).copied().unwrap_or(0), "tag": sent_on(p), "t": sim::now_ms(), "seq": sim::next_seq()}));
+                    }
+                    _ => break,
+                }
+            }
+            drop(ex);
+        }
+    };
     let mut all = pin!(select4(
         b.run(&crypto, Tx(net.clone(), 1), Rx(net.clone(), 1), NoNetwork),
         handler(1),
         handler(2),
-        core::future::pending::<()>()
+        devapp
     ));
 
     let mut dec = TapDecoder::default();
@@ -187,6 +233,7 @@ fn one_run(ops: &[Value], tr: &mut Trace) -> (usize, String) {
                     Some(p) if p.proto_id == 0 && p.opcode == 0x10 => ("sack", p.exch_id),
                     Some(p) if p.proto_id == 0 && p.opcode == 0x40 && t.encrypted && p.payload.len() >= 8 && p.payload[6] == 3 && p.payload[7] == 0 => ("close", p.exch_id),
                     Some(p) if p.proto_id == 0 && p.opcode == 0x40 => ("status", p.exch_id),
+                    Some(p) if p.proto_id == PROTO && p.opcode == 0x70 => ("own", p.exch_id),
                     Some(p) if p.proto_id == PROTO => ("reply", p.exch_id),
                     Some(p) => ("other", p.exch_id),
                     None => ("other", 0),
@@ -241,7 +288,28 @@ fn one_run(ops: &[Value], tr: &mut Trace) -> (usize, String) {
                         let alive = b.with_state(|st| st.verif_snapshot().sessions.sessions.iter().any(|x| x.local_sess_id == 10 + ss as u16));
                         let kind = if alive { "data" } else { "dataNoSession" };
                         tr.ev(json!({"ev": "Inj", "kind": kind, "s": ss, "e": e, "init": init, "rel": rel, "t": sim::now_ms()}));
-                        Step::Inject { src: 0, dst: 1, data: craft(ss, ctr[ss as usize - 1], 100 + e as u16, init, rel, PROTO, 1, &[e, seqno, ss]) }
+                        Step::Inject { src: 0, dst: 1, data: craft(ss, ctr[ss as usize - 1], 100 + e as u16, init, rel, PROTO, 1, &[e, seqno, ss, init as u8, e, 0]) }
+                    }
+                    "DevInit" => {
+                        dev_cmd.borrow_mut().push_back(op["s"].as_u64().unwrap_or(1) as u8);
+                        if let Some(w) = dev_waker.borrow_mut().take() {
+                            w.wake();
+                        }
+                        settle = 3;
+                        Step::Poll
+                    }
+                    "PktSame" => {
+                        // a datagram on the exchange id of the device's own initiator exchange: its answer (init = false),
+                        // or the first message of an exchange the peer happens to open under the same id (init = true)
+                        let ss = op["s"].as_u64().unwrap_or(1) as u8;
+                        let (init, rel) = (op["init"].as_bool().unwrap(), op["rel"].as_bool().unwrap_or(false));
+                        let eid = dev_exch.get();
+                        seqno = seqno.wrapping_add(1);
+                        ctr[ss as usize - 1] += 1;
+                        let alive = b.with_state(|st| st.verif_snapshot().sessions.sessions.iter().any(|x| x.local_sess_id == 10 + ss as u16));
+                        tr.ev(json!({"ev": "Inj", "kind": if alive { "data" } else { "dataNoSession" }, "s": ss, "e": unmap(eid), "init": init, "rel": rel, "t": sim::now_ms()}));
+                        let tagb = unmap(eid).to_le_bytes();
+                        Step::Inject { src: 0, dst: 1, data: craft(ss, ctr[ss as usize - 1], eid, init, rel, PROTO, 1, &[1, seqno, ss, init as u8, tagb[0], tagb[1]]) }
                     }
                     "Stray" | "CloseSession" => {
                         // a secured datagram for a session the device never had
@@ -262,7 +330,7 @@ fn one_run(ops: &[Value], tr: &mut Trace) -> (usize, String) {
                 ctr[2] += 1;
                 tr.ev(json!({"ev": "ProbeSent", "t": sim::now_ms()}));
                 settle = 2;
-                Step::Inject { src: 0, dst: 1, data: craft(3, ctr[2], 900, true, false, PROTO, 1, &[200, 0, 3]) }
+                Step::Inject { src: 0, dst: 1, data: craft(3, ctr[2], 900, true, false, PROTO, 1, &[200, 0, 3, 1, 0x84, 0x03]) }
             }
             2 => {
                 if !probe_wait_set {
@@ -302,6 +370,22 @@ pub fn run(args: &[String]) -> i32 {
                            {"op": "Pkt", "s": 1, "e": 3, "init": true, "rel": true}, {"op": "Pkt", "s": 2, "e": 3, "init": true, "rel": true}]));
     behaviours.push(json!([{"op": "Policy", "p": ["hold", "hold", "relDrop"]}, {"op": "Pkt", "s": 1, "e": 3, "init": true, "rel": false}, {"op": "Pkt", "s": 2, "e": 1, "init": true, "rel": false}, {"op": "Pkt", "s": 2, "e": 2, "init": true, "rel": false},
                            {"op": "Pkt", "s": 1, "e": 1, "init": true, "rel": true}, {"op": "Pkt", "s": 1, "e": 2, "init": true, "rel": true}]));
+    // both handlers busy while exchanges are opened by messages that ask for no acknowledgement: the accept deadline
+    // has to clear the receive slot all the same
+    behaviours.push(json!([{"op": "Policy", "p": ["hold", "hold", "reply"]}, {"op": "Pkt", "s": 1, "e": 1, "init": true, "rel": true}, {"op": "Pkt", "s": 2, "e": 2, "init": true, "rel": true},
+                           {"op": "Pkt", "s": 1, "e": 3, "init": true, "rel": false}, {"op": "Wait", "ms": 1600}, {"op": "Pkt", "s": 2, "e": 3, "init": true, "rel": false}, {"op": "Wait", "ms": 1600},
+                           {"op": "Pkt", "s": 2, "e": 3, "init": true, "rel": true}]));
+    behaviours.push(json!([{"op": "Policy", "p": ["hold", "hold", "hold"]}, {"op": "Pkt", "s": 1, "e": 1, "init": true, "rel": false}, {"op": "Pkt", "s": 1, "e": 2, "init": true, "rel": false},
+                           {"op": "Pkt", "s": 1, "e": 3, "init": true, "rel": false}, {"op": "Pkt", "s": 2, "e": 3, "init": true, "rel": false}, {"op": "Wait", "ms": 2500},
+                           {"op": "Pkt", "s": 2, "e": 1, "init": true, "rel": false}]));
+    // the device's own initiator exchange and an exchange the peer opens under the same id on the same session: the
+    // answer (no initiator flag) goes to the device's application, the peer's first message to a handler
+    for rel in [false, true] {
+        behaviours.push(json!([{"op": "Policy", "p": ["reply", "reply", "reply"]}, {"op": "DevInit", "s": 1}, {"op": "PktSame", "s": 1, "init": false, "rel": rel},
+                               {"op": "PktSame", "s": 1, "init": true, "rel": rel}, {"op": "PktSame", "s": 1, "init": false, "rel": rel}, {"op": "Pkt", "s": 1, "e": 2, "init": true, "rel": true}]));
+        behaviours.push(json!([{"op": "Policy", "p": ["hold", "reply", "reply"]}, {"op": "DevInit", "s": 2}, {"op": "PktSame", "s": 2, "init": true, "rel": rel}, {"op": "PktSame", "s": 2, "init": true, "rel": rel},
+                               {"op": "PktSame", "s": 2, "init": false, "rel": rel}, {"op": "PktSame", "s": 1, "init": true, "rel": rel}, {"op": "Wait", "ms": 3500}, {"op": "PktSame", "s": 2, "init": false, "rel": rel}]));
+    }
     let mut tr = Trace::create(&arg(args, "--out").expect("--out"));
     let mut n = 0usize;
     for (bi, b) in behaviours.iter().enumerate() {
